@@ -11,6 +11,7 @@ import (
 	"sort"
 	"strings"
 	"sync"
+	"time"
 
 	"github.com/slackhq/nebula/udp"
 	"github.com/slackhq/nebula/zzverif/mc"
@@ -70,6 +71,7 @@ type c28wCfg struct {
 	RecvErr   bool         // also offer the recv_error composite (main delete + pending delete of a live tunnel)
 	Seed      []c28wEv     // prefix executed (and fully checked once) before the search starts
 	Depth     int
+	BudgetS   float64 // soft time budget of this scenario (0 = whatever is left of the check's budget)
 }
 
 // c28wEv is one event of the menu.
@@ -941,6 +943,7 @@ func c28wExplore(c *mc.Check, cfg *c28wCfg, check c28wChecker, stats *c28wStats)
 		stats.merge(w.local)
 		w.close()
 	}
+	started := time.Now()
 	run := func(hist []c28wEv) (string, []c28wEv) {
 		w := c28wNew(cfg)
 		defer w.close()
@@ -972,7 +975,7 @@ func c28wExplore(c *mc.Check, cfg *c28wCfg, check c28wChecker, stats *c28wStats)
 			w := &c28wWorld{cfg: cfg}
 			return w.label(e)
 		},
-		Stop: func() bool { return c.OutOfTime() },
+		Stop: func() bool { return c.OutOfTime() || (cfg.BudgetS > 0 && time.Since(started).Seconds() > cfg.BudgetS) },
 	})
 }
 
@@ -1012,7 +1015,7 @@ func c28wScenarios(c *mc.Check) []*c28wCfg {
 		Name: "cap(index space 1..15)", Space: 16, FreeIdx: true,
 		MaxHI: mc.Pick(c, 7, 8), MaxRelays: mc.Pick(c, 2, 3),
 		Sets: capSets, Starts: []netip.Addr{c28wAddrB}, Targets: []netip.Addr{c28wPeerT1},
-		Seed: []c28wEv{{Op: 'R', H: -1, Set: 1}, {Op: 'R', H: -1, Set: 0}, {Op: 'R', H: -1, Set: 1}, {Op: 'R', H: -1, Set: 0}, {Op: 'Y', H: 0, Set: 0}},
+		Seed: []c28wEv{{Op: 'R', H: -1, Set: 1}, {Op: 'Y', H: 0, Set: 0}, {Op: 'R', H: -1, Set: 0}, {Op: 'R', H: -1, Set: 1}, {Op: 'R', H: -1, Set: 0}},
 		Depth: mc.Pick(c, 4, 5),
 	}
 	// cap reached through the address b of two-address tunnels: evictions hit tunnels that are primary elsewhere
@@ -1023,7 +1026,7 @@ func c28wScenarios(c *mc.Check) []*c28wCfg {
 		Seed: []c28wEv{{Op: 'R', H: -1, Set: 2}, {Op: 'R', H: -1, Set: 1}, {Op: 'R', H: -1, Set: 0}, {Op: 'R', H: -1, Set: 0}, {Op: 'R', H: -1, Set: 0}, {Op: 'R', H: -1, Set: 0}},
 		Depth: mc.Pick(c, 3, 4),
 	}
-	return []*c28wCfg{collide, rejects, relaySeed, capped, cappedB}
+	return []*c28wCfg{rejects, relaySeed, cappedB, capped, collide}
 }
 
 func c28wDescribe(cfgs []*c28wCfg) []map[string]any {
